@@ -58,6 +58,10 @@ def run_shard(spec):
                     cid = 'c%d' % len(cases)
                     cases.append((cid, ti, sel, 0, exp))
                     info[cid] = (n, mode, v, e, sel, exp, spans, 'reference')
+                    # the same bytes into the one long-lived object of the type, which still holds the previous value
+                    cid = 'c%d' % len(cases)
+                    cases.append((cid, ti, sel, 4, exp))
+                    info[cid] = (n, mode, v, e, sel, exp, spans, 'reference-into-used-object')
                     pb = pyb.get(e)
                     if pb is not None and pb != exp:
                         cid = 'c%d' % len(cases)
@@ -77,7 +81,7 @@ def run_shard(spec):
                 sub = sch.closure(n)
                 wit = {'schema_json': sub.to_json(), 'schema': sub.to_prophy(), 'type': n, 'tags': tagmap[n],
                        'mode': mode, 'value': C.jsonable(v), 'endian': e, 'selector': sel, 'input': C.hexs(data),
-                       'input_origin': origin}
+                       'input_origin': origin, 'op': 4 if origin.endswith('used-object') else 0}
                 wit.update(kw)
                 return wit
             r = res.get(cid)
